@@ -42,6 +42,9 @@ def dispatch(prop: str):
     if prop == "C20":
         from .engines import robust
         return robust.check_c20
+    if prop == "C15":
+        from .engines import proc
+        return proc.check
     raise SystemExit(f"no check registered for {prop}")
 
 
